@@ -292,6 +292,13 @@ pub fn config_grid() -> Vec<MovieSpec> {
             }
         }
     }
+    for aot in [2u8, 5, 42] {
+        for fi in 0..=12u8 {
+            let mut t = TrackSpec::new(Kind::Aac, 44100);
+            t.aac = (aot, fi, 2, 0);
+            cfgs.push(MovieSpec::new(1000, vec![t]));
+        }
+    }
     for sl in [4usize, 5, 255, 256, 65535] {
         for pl in [0usize, 1, 255, 256, 65535] {
             let mut t = TrackSpec::new(Kind::Avc, 1000);
